@@ -21,6 +21,7 @@ func main() {
 	framed := flag.Bool("framed", true, "also deliver framed through the syslog ingester")
 	fifoDir := flag.String("fifodir", "", "if set: also deliver through a real FIFO created in this directory")
 	fifoEvery := flag.Int("fifoevery", 1, "deliver every n-th record through the FIFO")
+	streamOn := flag.Bool("stream", true, "also deliver every line to one long-lived processor (one registry for the whole run)")
 	flag.Parse()
 
 	fi, err := os.Open(*in)
@@ -41,6 +42,11 @@ func main() {
 	r := rand.New(rand.NewSource(*seed))
 	n, nev, nfr, nfifo := 0, 0, 0, 0
 	var sess *sshdvec.FifoSession
+	var stream *sshdvec.Stream
+	if *streamOn {
+		stream = &sshdvec.Stream{}
+		defer stream.Close()
+	}
 	nrec := 0
 	forms := map[string]int{}
 	for sc.Scan() {
@@ -59,7 +65,7 @@ func main() {
 			if *fifoDir != "" && nrec%*fifoEvery == 0 {
 				fp = &sess
 			}
-			rec := sshdvec.Run(&v, r, n, k, *framed, fp, *fifoDir)
+			rec := sshdvec.Run(&v, r, n, k, *framed, fp, *fifoDir, stream)
 			if rec.Fifo != nil {
 				nfifo++
 			}
